@@ -987,7 +987,7 @@ func (m *Machine) mapUpdate(mv, key, v value) {
 	if mp == nil {
 		m.tpanic("assignment to entry in nil map")
 	}
-	if m.frozenMaps != nil && m.frozenMaps[mp] {
+	if m.frozenMaps != nil && (m.frozenMaps[mp] || m.globalFrozenMaps[mp]) {
 		m.frozenWrites = append(m.frozenWrites, m.pos())
 	}
 	m.mapInsert(mp, key, v)
@@ -1037,7 +1037,7 @@ func (m *Machine) mapDelete(mp *mapV, key value) {
 	if mp == nil {
 		return
 	}
-	if m.frozenMaps != nil && m.frozenMaps[mp] {
+	if m.frozenMaps != nil && (m.frozenMaps[mp] || m.globalFrozenMaps[mp]) {
 		m.frozenWrites = append(m.frozenWrites, m.pos())
 	}
 	if mp.symKey || isSym(key) {
